@@ -12,14 +12,20 @@
 (* start offsets.  The executors must stay within K * SearchCost + K0.     *)
 (* K and K0 are fixed, generous constants: they bound *growth*; a loop     *)
 (* that does not terminate exceeds any constant (and runs out of fuel).    *)
+(* FUEL is the budget the runs were given: a run that spent it has taken   *)
+(* more than FUEL steps, which is out of bound exactly when the bound is   *)
+(* below FUEL; when the bound itself exceeds the budget (an exponential    *)
+(* reference search on a long haystack) the run decides nothing and is     *)
+(* counted as undecided.                                                   *)
 (***************************************************************************)
-EXTENDS ESSem, RegexAST, TLC, Json, IOUtils
+EXTENDS ESSem, RegexAST, TLC, Json, IOUtils, FiniteSets
 
 Obs == ndJsonDeserialize(IOEnv.OBS)
 NObs == Len(Obs)
 NCHAINS == 16
 K == 24
 K0 == 64
+FUEL == IF "FUEL" \in DOMAIN IOEnv THEN atoi(IOEnv.FUEL) ELSE 2000000000
 
 Min2(a, b) == IF a < b THEN a ELSE b
 Names == <<"bt_opt", "pv_opt", "bt_noopt", "pv_noopt">>
@@ -33,13 +39,15 @@ PerHay(r, hi) ==
       c == r.cost[hi]
   IN [mm |-> { [kind |-> "cost", id |-> r.rid, h |-> hi - 1, var |-> Names[v], ref |-> ref, bound |-> bound,
                 steps |-> c[2 * v - 1], depth |-> c[2 * v]] :
-                 v \in {w \in 1..4 : c[2 * w - 1] < 0 \/ c[2 * w - 1] > bound \/ c[2 * w] > bound} },
+                 v \in {w \in 1..4 : (c[2 * w - 1] < 0 /\ bound < FUEL) \/ c[2 * w - 1] > bound \/ c[2 * w] > bound} },
+      und |-> Cardinality({w \in 1..4 : c[2 * w - 1] < 0 /\ bound >= FUEL}),
       ratio |-> (100 * Max2(Max2(c[1], c[3]), Max2(c[5], c[7]))) \div ref]
 
 Summary(r) ==
-  IF r.compile.opt # "ok" \/ r.compile.noopt # "ok" THEN [mm |-> {}, ratio |-> 0]
+  IF r.compile.opt # "ok" \/ r.compile.noopt # "ok" THEN [mm |-> {}, ratio |-> 0, und |-> 0]
   ELSE LET per == [hi \in DOMAIN r.hays |-> PerHay(r, hi)]
        IN [mm |-> UNION {per[hi].mm : hi \in DOMAIN per},
+           und |-> FoldLeft(LAMBDA acc, x : acc + x.und, 0, per),
            ratio |-> FoldLeft(LAMBDA acc, x : Max2(acc, x.ratio), 0, per)]
 
 RECURSIVE TakeSome(_, _)
@@ -49,7 +57,7 @@ Report(r) ==
   LET sm == Summary(r)
   IN /\ \A m \in TakeSome(sm.mm, 3) : PrintT("J " \o ToJson(m))
      /\ PrintT("J " \o ToJson([kind |-> "coststat", id |-> r.rid, runs |-> 4 * Len(r.hays),
-                               mism |-> Cardinality(sm.mm), ratio100 |-> sm.ratio]))
+                               mism |-> Cardinality(sm.mm), ratio100 |-> sm.ratio, undecided |-> sm.und]))
 
 VARIABLE i
 Init == i \in 1..Min2(NCHAINS, NObs)
